@@ -120,3 +120,41 @@ CONTRACTS += [
              invariants={0: {"dom": "all((d in nodes_with_deg) == any(0 <= m and m < _j0 and deg_seq[m] == d for m in Int) for d in Int)",
                              "val": "all(implies(d in nodes_with_deg, (n in nodes_with_deg[d]) == (0 <= n and n < _j0 and deg_seq[n] == d)) for d in Int for n in Int)"}}),
 ]
+
+# random_hypergraph / random_uniform_hypergraph (C14): for every outcome of random.sample the result has exactly the nodes 0..n-1, is
+# unweighted, contains only duplicate-free hyperedges of requested sizes over those nodes, and at most the requested number of each size.
+# Termination of the drawing loop is not proved. The "same seed, same hypergraph" clause is outside a per-call contract (bounded tier).
+REQ = "(strict(k) and len(k) in num_edges_by_size and all(0 <= n and n < num_nodes for n in k))"
+CONTRACTS += [
+    Contract("random_hypergraph", RD, ["random_hypergraph"], properties=["C14"], options={"listing_positional"},
+             params={"num_nodes": "Int", "num_edges_by_size": "Map[Int,Int]", "seed": "Opt[Int]"}, result="Obj[Hypergraph]", pure=True,
+             locals={"edges": "Seq[Tup]|Set[Tup]"},
+             requires={"n": "num_nodes >= 0", "sizes": "all(s >= 1 for s in num_edges_by_size)"},
+             may_raise={"ValueError": "any(s in num_edges_by_size and num_edges_by_size[s] > 0 and s > num_nodes for s in Int)"},
+             ensures={"wf": "wf(result)",
+                      "V": "all((n in V(result)) == (0 <= n and n < num_nodes) for n in Node)",
+                      "E": f"all(implies(k in E(result), {REQ}) for k in Tuple)",
+                      "at_least_one": "all(implies(s in num_edges_by_size and num_edges_by_size[s] >= 1, any(k in E(result) and len(k) == s for k in Tuple)) for s in Int)",
+                      "at_most": "all(implies(s in num_edges_by_size, card({k for k in E(result) if len(k) == s}) <= (num_edges_by_size[s] if num_edges_by_size[s] >= 0 else 0)) for s in Int)",
+                      "unweighted": "not weighted(result)"},
+             invariants={0: {"wf": "wf(h)", "most": "all(implies(s in _done0, card({k for k in E(h) if len(k) == s}) <= (num_edges_by_size[s] if num_edges_by_size[s] >= 0 else 0)) for s in Int)",
+                             "later": "all(implies(k in E(h), len(k) in _done0) for k in Tuple)", "one": "all(implies(s in _done0 and num_edges_by_size[s] >= 1, any(k in E(h) and len(k) == s for k in Tuple)) for s in Int)", "V": "all((n in V(h)) == (0 <= n and n < num_nodes) for n in Node)",
+                             "E": f"all(implies(k in E(h), {REQ}) for k in Tuple)", "unweighted": "not weighted(h)"},
+                         1: {"len": "len(edges) <= (num_edges_by_size[size] if num_edges_by_size[size] >= 0 else 0)",
+                             "drawn": "all(implies(0 <= i and i < len(edges), " + REQ.replace("(k)", "(edges[i])").replace(" in k)", " in edges[i])") + " and len(edges[i]) == size) for i in Int)"}}),
+]
+
+RUQ = "(strict(k) and len(k) == size and all(0 <= n and n < num_nodes for n in k))"
+CONTRACTS += [
+    # the uniform variant is the general generator called with the one-entry table {size: num_edges}
+    Contract("random_uniform_hypergraph", RD, ["random_uniform_hypergraph"], properties=["C14"],
+             params={"num_nodes": "Int", "size": "Int", "num_edges": "Int", "seed": "Opt[Int]"}, result="Obj[Hypergraph]", pure=True,
+             requires={"n": "num_nodes >= 0", "size": "size >= 1"},
+             may_raise={"ValueError": "num_edges > 0 and size > num_nodes"},
+             ensures={"wf": "wf(result)",
+                      "V": "all((n in V(result)) == (0 <= n and n < num_nodes) for n in Node)",
+                      "E": f"all(implies(k in E(result), {RUQ}) for k in Tuple)",
+                      "at_least_one": "implies(num_edges >= 1, any(k in E(result) for k in Tuple))",
+                      "at_most": "card(E(result)) <= (num_edges if num_edges >= 0 else 0)",
+                      "unweighted": "not weighted(result)"}),
+]
